@@ -13,18 +13,20 @@ import core
 FIX = {"FixF2": "TRUE", "FixF3": "TRUE", "FixF14": "FALSE"}
 
 PLACEMENTS = {
-    "mid": dict(TS=2, HSA=5, G=1, Others="{1, 3, 126}"),
-    "zero": dict(TS=0, HSA=4, G=1, Others="{1, 3, 126}"),
-    "top": dict(TS=3, HSA=4, G=2, Others="{0, 2, 126}"),
+    "mid": dict(TS=2, HSA=5, G=1, Others="{1, 3, 126}", PS=1, NS=3),
+    "zero": dict(TS=0, HSA=4, G=1, Others="{1, 3, 126}", PS=3, NS=1),
+    "top": dict(TS=3, HSA=4, G=2, Others="{0, 2, 126}", PS=2, NS=0),
 }
-DEPTH = {"quick": dict(check=5, emit=3), "thorough": dict(check=7, emit=4)}
+# cold: from Offline; warm: from a station admitted to a three-station ring (fixed input prefix)
+DEPTH = {"quick": dict(check=5, emit=3, wcheck=4, wemit=2), "thorough": dict(check=7, emit=4, wcheck=6, wemit=3)}
 
 
-def cfg_text(pl, depth, emit, invariants, napps=1):
+def cfg_text(pl, depth, emit, invariants, napps=1, warm=False):
     p = PLACEMENTS[pl]
     lines = ["SPECIFICATION Spec",
              "CONSTANTS TS = %d HSA = %d G = %d NApps = %d Others = %s AppTargets = {9}" % (p["TS"], p["HSA"], p["G"], napps, p["Others"]),
              "  MaxDepth = %d WithPartial = FALSE Emit = \"%s\"" % (depth, emit),
+             "  Warm = %s WarmPS = %d WarmNS = %d" % ("TRUE" if warm else "FALSE", p["PS"], p["NS"]),
              "  " + " ".join("%s = %s" % kv for kv in sorted(FIX.items()))]
     lines += ["INVARIANT " + i for i in invariants]
     lines += ["VIEW View", "CONSTRAINT BufBound", "CHECK_DEADLOCK FALSE"]
@@ -42,8 +44,9 @@ def write_cfg(name, text):
 _SCHED = re.compile(r'^<<"SCHED", "(.*)">>\s*$', re.M)
 
 
-def model_check(rep, pl, tier, workers=8):
-    cfg = write_cfg("MC_FdlSingle_%s_%s.cfg" % (pl, tier), cfg_text(pl, DEPTH[tier]["check"], "none", ["NoPanic", "RulesOk", "TypeOk"]))
+def model_check(rep, pl, tier, workers=8, warm=False):
+    cfg = write_cfg("MC_FdlSingle_%s_%s%s.cfg" % (pl, tier, "_warm" if warm else ""),
+                    cfg_text(pl, DEPTH[tier]["wcheck" if warm else "check"], "none", ["NoPanic", "RulesOk", "TypeOk", "WarmOk"], warm=warm))
     r = core.tlc_model("MC_FdlSingle", cfg, workers=workers, timeout=3000)
     rep.add_model(r)
     if not r["ok"]:
@@ -58,14 +61,15 @@ def model_check(rep, pl, tier, workers=8):
     return r
 
 
-def emit_schedules(rep, pl, tier):
+def emit_schedules(rep, pl, tier, warm=False):
     """State cover: one shortest schedule per reachable model state (no invariants: schedules that
     drive the model into a panic are wanted too)."""
-    cfg = write_cfg("MC_FdlSingle_%s_%s_emit.cfg" % (pl, tier), cfg_text(pl, DEPTH[tier]["emit"], "state", ["EmitState"]))
+    cfg = write_cfg("MC_FdlSingle_%s_%s%s_emit.cfg" % (pl, tier, "_warm" if warm else ""),
+                    cfg_text(pl, DEPTH[tier]["wemit" if warm else "emit"], "state", ["EmitState"], warm=warm))
     r = core.tlc_model("MC_FdlSingle", cfg, workers=1, timeout=3000)
     rep.add_model(r)
     p = PLACEMENTS[pl]
-    out = os.path.join(core.workdir("single", tier), "sched_%s.ndjson" % pl)
+    out = os.path.join(core.workdir("single", tier), "sched_%s%s.ndjson" % (pl, "_warm" if warm else ""))
     n = 0
     seen = set()
     with open(out, "w") as fh:
@@ -99,11 +103,13 @@ def single_results(tier):
     jobs = []
     nsched = 0
     for pl in placements:
-        r = model_check(rep, pl, tier)
-        models.append({k: r[k] for k in ("module", "cfg", "generated", "distinct", "ok", "timed_out", "wall_s")})
-        sched, n = emit_schedules(rep, pl, tier)
-        nsched += n
-        jobs.append((["single", "--sched", sched], os.path.join(d, "replay_%s.ndjson" % pl), "replay"))
+        for warm in ((False, True) if (tier == "thorough" or pl == "mid") else (True,)):
+            r = model_check(rep, pl, tier, warm=warm)
+            models.append({k: r[k] for k in ("module", "cfg", "generated", "distinct", "ok", "timed_out", "wall_s")})
+            sched, n = emit_schedules(rep, pl, tier, warm=warm)
+            nsched += n
+            # every schedule is followed by a quiet continuation so that what the station decided becomes visible on the wire
+            jobs.append((["single", "--sched", sched, "--quiet", 3], os.path.join(d, "replay_%s%s.ndjson" % (pl, "_warm" if warm else "")), "replay"))
     # random deep walks over the same alphabet (beyond the exhaustive depth, other placements, 0..2 apps)
     nr = 6 if tier == "quick" else 40
     for k in range(nr):
